@@ -7,7 +7,8 @@
 #define GEMMI_NEIGHBOR_HPP_
 
 #include <vector>
-#include <cmath>  // for INFINITY, sqrt
+#include <climits>  // for INT_MAX
+#include <cmath>  // for INFINITY, sqrt, ceil
 
 #include "fail.hpp"      // for fail
 #include "grid.hpp"
@@ -104,6 +105,15 @@ struct NeighborSearch {
             func(m, dist_sq);
         }
     }, k);
+  }
+
+  // How many bins on each side of the central one cover k * radius_specified
+  // along an axis with n bins and the given reciprocal cell length.
+  int bins_to_visit(int k, double recip_length, int n) const {
+    double ratio = radius_specified * recip_length * n;  // radius / bin width
+    if (ratio <= 1. + 1e-9)
+      return k;
+    return (int) std::min(std::ceil(k * ratio), double(INT_MAX / 4));
   }
 
   int sufficient_k(double r) const {
@@ -330,12 +340,18 @@ void NeighborSearch::for_each_cell(const Position& pos, const Func& func, int k)
   Fractional fr = grid.unit_cell.fractionalize(pos);
   if (use_pbc)
     fr = fr.wrap_to_unit();
-  int u0 = int(fr.x * grid.nu) - k;
-  int v0 = int(fr.y * grid.nv) - k;
-  int w0 = int(fr.z * grid.nw) - k;
-  int uend = u0 + 2 * k + 1;
-  int vend = v0 + 2 * k + 1;
-  int wend = w0 + 2 * k + 1;
+  // k stands for the distance k * radius_specified. A bin is at least
+  // radius_specified wide unless the whole cell (or bounding box) is narrower
+  // along that axis; then more than k bins (lattice shifts) must be visited.
+  int ku = bins_to_visit(k, grid.unit_cell.ar, grid.nu);
+  int kv = bins_to_visit(k, grid.unit_cell.br, grid.nv);
+  int kw = bins_to_visit(k, grid.unit_cell.cr, grid.nw);
+  int u0 = int(fr.x * grid.nu) - ku;
+  int v0 = int(fr.y * grid.nv) - kv;
+  int w0 = int(fr.z * grid.nw) - kw;
+  int uend = u0 + 2 * ku + 1;
+  int vend = v0 + 2 * kv + 1;
+  int wend = w0 + 2 * kw + 1;
   if (use_pbc) {
     auto shift = [](int j, int n) {
       if (j < 0)
